@@ -91,7 +91,7 @@ def serialise(model):
         cues = model["cues"][code]
         for k, (s, e, items) in enumerate(cues):
             events.setdefault(s, []).append((cls, code, ser_items(items, v)))
-            nxt = cues[k + 1][0] if k + 1 < len(cues) else None
+            nxt = next((c[0] for c in cues[k + 1:] if c[0] != s), None)
             if e is not None and e != nxt:
                 events.setdefault(e, []).append((cls, code, "&nbsp;"))
     body = []
@@ -153,7 +153,8 @@ def expected(model):
     for code in sorted(first, key=lambda c: first[c]):
         cues, rows = model["cues"][code], []
         for k, (s, e, items) in enumerate(cues):
-            nxt = cues[k + 1][0] if k + 1 < len(cues) else None
+            # (two paragraphs of one language in one SYNC share their start: both last until the language's next sync)
+            nxt = next((c[0] for c in cues[k + 1:] if c[0] != s), None)
             end = e if e is not None else (nxt if nxt is not None else s + 4000)
             rows.append((s * 1000, end * 1000, shown(items)))
         out[code] = rows
@@ -174,6 +175,8 @@ def documents(thorough):
     # times: ends by blank paragraph, by the next cue, none at all (four seconds); large instants; a cue at 0
     yield "ends", {"langs": one, "cues": {"en-US": [(0, 900, ["zero"]), (1000, 2000, ["a"]), (2000, None, ["b"]), (2500, 2600, ["c"]),
                                                       (3600000, 3600040, ["hour"]), (86399999, None, ["last"])]}}
+    yield "two paragraphs of one language in one SYNC, in the middle and at the end", {"langs": one, "cues": {"en-US": [
+        (1000, None, ["one"]), (3000, None, ["three"]), (3000, None, ["three-b"]), (6000, None, ["six"]), (6000, None, ["six-b"])]}}
     yield "a last cue with its end", {"langs": one, "variant": variants[1], "cues": {"en-US": [(1000, None, ["a"]), (7000, 9000, ["b"])]}}
     # markup: i / b / u, nesting of different kinds, spans, an unknown element, elements across a break
     marks = [
